@@ -21,12 +21,19 @@ type CallData struct {
 func (n *RawNode) RPCCall(ctx context.Context, d CallData) (protoreflect.ProtoMessage, error) {
 	md := &ordering.Metadata{MessageID: n.mgr.getMsgID(), Method: d.Method}
 	replyChan := make(chan response, 1)
+	vEmit("CallStart", 0, md.MessageID, "kind", "rpc", "size", 1, "ctx", ctx)
+	vGate("CallEnqWait", n.id, md.MessageID)
 	n.channel.enqueue(request{ctx: ctx, msg: &Message{Metadata: md, Message: d.Message}}, replyChan, false)
+	vEmit("CallEnq", n.id, md.MessageID)
+	vEmit("CallIssued", 0, md.MessageID, "expected", 1)
 
 	select {
 	case r := <-replyChan:
+		vEmit("CallRecv", r.nid, md.MessageID, "err", r.err != nil)
+		vEmit("CallEnd", 0, md.MessageID, "out", "reply")
 		return r.msg, r.err
 	case <-ctx.Done():
+		vEmit("CallEnd", 0, md.MessageID, "out", "ctx")
 		return nil, ctx.Err()
 	}
 }
